@@ -73,7 +73,8 @@ def make(i, base_seed, tier):
     with_relay = rng.random() < 0.35
     relay_node = None
     if with_relay:
-        c = [a for a in topo if 1 <= netref.level(a) <= 3]
+        # levels 1..3 are the property's scope; a level-4 relay has no next level - whatever it does must reach nobody
+        c = [a for a in topo if 1 <= netref.level(a) <= (4 if rng.random() < 0.25 else 3)]
         relay_node = rng.choice(c) if c else None
     casts = []
     for _ in range(rng.randint(1, 3)):
@@ -90,8 +91,20 @@ def make(i, base_seed, tier):
         ln = rng.choice(BOUNDARY) if rng.random() < 0.5 else rng.randint(0, 144)
         if relay_node is not None:
             ln = min(ln, 24)
+        if rng.random() < 0.25:
+            # a unicast to an absent neighbour fails first (every retry unacknowledged); the multicast follows
+            Lt = netref.level(snd) if lvl is None else lvl
+            cands = [a for a in topo if netref.level(a) == Lt and a != snd] or topo
+            f = rng.choice(cands)          # preferably a node of the level the multicast is going to
+            lvf = netref.level(f)
+            absent = [f | (d << (3 * lvf)) for d in range(1, 6) if lvf < 4 and (f | (d << (3 * lvf))) not in topo]
+            if absent:
+                casts.append({"kind": "failed_unicast", "src": f, "dst": rng.choice(absent), "len": rng.randint(0, 24), "type": rng.randint(0, 127), "seed": rng.getrandbits(20)})
         casts.append({"src": snd, "level": lvl, "len": ln, "type": rng.randint(0, 127), "seed": rng.getrandbits(20)})
     frag = any(c["len"] > 24 for c in casts)
+    for c in casts:
+        if relay_node is not None and c.get("kind") != "failed_unicast":
+            c["len"] = min(c["len"], 24)
     nodes = []
     for a in topo:
         if frag:
@@ -100,7 +113,7 @@ def make(i, base_seed, tier):
         else:
             k = random_mcu_knobs(kr, stalls=False)
         nodes.append({"addr": a, "knobs": k, "allow": rng.random() < 0.8 or a == relay_node, "relay": a == relay_node})
-    senders = {c["src"] for c in casts}
+    senders = {c["src"] for c in casts if c.get("kind") != "failed_unicast"}
     for nd in nodes:
         if nd["addr"] in senders or nd["addr"] == 0:
             nd["allow"] = True   # multicast() on a node that has the feature switched off is not generated
@@ -148,6 +161,13 @@ def _run(scn, w, net, res):
     for m in scn["casts"]:
         if m["src"] not in addrs:
             continue
+        if m.get("kind") == "failed_unicast":
+            def fail(node, m=m):
+                from circuitpython_nrf24l01.network.structs import RF24NetworkHeader, RF24NetworkFrame
+                return node.write(RF24NetworkFrame(RF24NetworkHeader(m["dst"], m["type"]), payload(m["seed"], m["len"])))
+            net.call(m["src"], "write", fail, timeout=5000 * MS)
+            net.wait_quiet(quiet=5 * MS, timeout=2000 * MS)
+            continue
         src = m["src"]
         L = netref.level(src) if m["level"] is None else m["level"]
         data = payload(m["seed"], m["len"])
@@ -194,7 +214,7 @@ def _run(scn, w, net, res):
                     res.add("unacked", dict(sig, kind="ack_requested"), "node %o transmitted a multicast frame requesting an acknowledgement" % k)
                     break
         # ---- relay
-        if relayed_levels and m["len"] <= 24:
+        if relayed_levels and m["len"] <= 24 and L <= 3:
             R = net.nodes[relay_node]
             want_addr = netref.pipe_address(netref.lvl_addr(L + 1), 0)
             tx = [t for t in w.air.trace[a0:] if t["src"] == "n%s" % relay_node and not t["ack"]]
@@ -213,7 +233,7 @@ def _run(scn, w, net, res):
             res.add("who", {"kind": "update_raised", "exc": type(e).__name__}, "update() on node %o raised %r\n%s" % (k, e, tb))
     res.sample = {"topology": [oct(nd["addr"]) for nd in scn["nodes"]], "deaf": [oct(nd["addr"]) for nd in scn["nodes"] if not nd["allow"]],
                   "relay": oct(relay_node) if relay_node is not None else None,
-                  "casts": [(oct(m["src"]), m["level"], m["len"], m["type"]) for m in scn["casts"]]}
+                  "casts": [(oct(m["src"]), m.get("kind", "multicast"), m.get("level"), m["len"], m["type"]) for m in scn["casts"]]}
 
 
 def same_class(a, b):
